@@ -6,6 +6,13 @@ NOTE = ("bounded scope only (declared lattices/catalogues/depths); exact Fractio
 TECH = "exhaustive small-scope enumeration of the real implementation against an exact reference model (explicit-state explorer written for this task)"
 
 CHECKS = {
+    "C19": ("Every pairing of 21 left operand kinds (all index-type patterns of rank<=3 incl. free axes, finite/infinite/non-normalised points, "
+            "collections, lines, planes, quadrics, transformations) x 11 right operand kinds x 8 operations x operator/ufunc form is executed and compared "
+            "with numpy on the raw arrays (index types of t) or with exact affine point arithmetic; every index expression of length <= rank+1 "
+            "(thorough: rank+2, rank 4) over a 13-item grammar (ints, slices, None, Ellipsis, lists, 2-D int arrays, 1-D/2-D boolean masks) x index-type "
+            "patterns is executed; the provenance of every result axis is predicted by numpy's rule and validated against numpy itself with a tracer "
+            "array; transpose (all permutations and cycles, rank<=4), expand_dims (all axes), copy.",
+            NOTE, "exhaustive enumeration of an index-expression grammar and operand pairings on the real implementation against numpy-validated reference semantics", "DESIGN.md section 5, C19"),
     "C05": ("Explicit-state BFS over diagram-building programs (add_node / add_edge over a universe of 10-12 tensor objects incl. collections, "
             "a copy() twin and a dimension-3 tensor; every ordered pair, self edges and repeated edges; depth 3 quick / 4 thorough) with a reference "
             "model of the bookkeeping stepped in lock-step: error conformance at every transition, calculate() compared entry by entry with an "
